@@ -7,6 +7,12 @@ NOTE = ("Trusted base: the gosmt executor's Go semantics (engine/*.go), z3 4.8.1
         "bounds are those of the harnesses (see DESIGN.md section of the property); inputs beyond them are outside the claim.")
 # id -> (claimed?, level text, design_ref, extra note / N/A reason)
 CHECKS = {
+ "C04": ("Path conditions of the real handleNewConnection over symbolic handshake bytes, login/password fields, account table and transaction ID: served iff handshake valid and credentials match; otherwise nothing executed, nothing queued to anyone, at most handshake reply + one error reply carrying the login's ID; registry restored.", "3/C04", "Account table, ban list, agreement and connection are harness stubs; bcrypt by contract; login/password fields up to 2 bytes each (all lengths), one appended request."),
+ "C05": ("For every registered handler group the real handler runs with a fully symbolic 64-bit bitmap: effect => governing privilege, denial => privilege absent, denial is the only outcome with no side effect, entitled requests are carried out; at most one reply, to the requester.", "3/C05 + Appendix A", "Managers, file store, news store and message board are recording stubs; target kind (file/folder, category/bundle, exists/missing) symbolic; names from a finite menu."),
+ "C12": ("Recipients of public/private chat lines, subject, join, leave and decline notices are decided for all read/send bitmaps of three clients and all message bytes up to 9000 (covers the 8192-byte cut), text compared with the reference format.", "3/C12", "Three clients, one private chat; real in-memory chat and client managers."),
+ "C15": ("One step of the real YAMLAccountManager (create, duplicate create, edit, rename, delete) from a consistent state keeps memory = listed = files; handler password rules (absent clears, marker keeps, otherwise hash) and new-user-then-login for all short password byte strings.", "3/C15", "os and yaml replaced by the in-harness file model / contract; bcrypt by contract; concrete logins (path safety of arbitrary logins belongs to C07)."),
+ "C17": ("Ban gate of the real handleNewConnection with symbolic ban mode and expiry instant: refused before any login processing iff permanently banned or not yet expired, admitted once expired; ban recorded under the peer IP with now+30min; real ban table step; disconnect effects.", "3/C17", "Clock = non-decreasing symbolic instants; IPv4 dotted addresses; persistence across restart only through the yaml contract."),
+ "C18": ("One PostArticle/DeleteArticle/ListArticles/grouping step of the real ThreadedNewsYAML from a category with two articles of arbitrary distinct 32-bit IDs: fresh ID, threading links, other articles untouched, list ascending and parseable.", "3/C18", "yaml/os replaced by contract + file model; IDs below 2^32-1; two pre-existing articles."),
  "C14": ("For all frame sizes up to the 16-bit field limit the real sendTransaction performs exactly one Write carrying exactly the reference frame; unknown recipients are dropped for all IDs; field prefix = content for all lengths <= 65535 (oversize content is a listed known finding); replies carry flag, request ID and requester for all IDs.", "3/C14", "Atomicity of a single Write call on a TCP connection is assumed; per-handler reply correlation rides on the C05 harnesses."),
  "C19": ("The schedule of two clients' real Seek/Read steps is a symbolic variable: every interleaving of up to 10 steps is decided; posts are kept newest-first and are on disk when acknowledged for all texts.", "3/C19", "Steps are atomic as in the code (Read/Write hold the store mutex, Seek is one store); os functions are replaced by an in-harness file model. The shared-cursor defect found is a listed known finding."),
  "C20": ("The system-call sequence of each persistent update is extracted by symbolically executing the real update; the crash index and the partial-write length are symbolic, and at every such point the live file must hold the complete old or complete new document.", "3/C20", "os.WriteFile = create/truncate + write (any proper prefix on crash) + close; rename/remove atomic; yaml.Marshal returns an arbitrary non-empty document; fsync/power-loss ordering is outside the claim. No native replay (crash injection is in the file model)."),
